@@ -155,4 +155,7 @@ def translated : List String := ["OracleGetFeedKey(feedName)", "OracleGetReqCtxI
 /-- every rejecting guard of the translated functions, in source order -/
 def guards : List String := []
 
+/-- every statement of the translated functions executed for its effect, with its nesting depth, in source order -/
+def effects : List String := ["OracleGetFeedValueKey: d0 binary.BigEndian.PutUint64(key, batchCounter)"]
+
 end Irismod.Gen.PureKeys
